@@ -21,6 +21,10 @@ pub struct Gen<'a> {
     /// picture generators sometimes repeat one of them verbatim, so that identical blocks occur
     /// more than once in a picture with other blocks in between. Part of the case, not of the tape.
     pub block_pool: Vec<(usize, bool, Vec<crate::syntax::Event>)>,
+    /// The six blocks (INTRADC, events) of the macroblock generated last in the current picture,
+    /// with its (first index, stream form): the next macroblock sometimes repeats the block at the
+    /// same index - its neighbour in the same plane - INTRADC and all.
+    pub last_mb: Option<(usize, bool, Vec<(u8, Vec<crate::syntax::Event>)>)>,
 }
 
 impl<'a> Gen<'a> {
@@ -31,11 +35,18 @@ impl<'a> Gen<'a> {
             want_desc: false,
             desc: None,
             block_pool: Vec::new(),
+            last_mb: None,
         }
     }
 
     pub fn consumed(&self) -> usize {
         self.pos
+    }
+
+    /// The tape words in `from..to` (clipped to the tape), e.g. the words a sub-generator consumed.
+    pub fn tape_slice(&self, from: usize, to: usize) -> Vec<u32> {
+        let n = self.tape.len();
+        self.tape[from.min(n)..to.min(n)].to_vec()
     }
 
     pub fn exhausted(&self) -> bool {
